@@ -193,6 +193,7 @@ type multiStreamListener struct {
 	ln          StreamListener
 	count       uint32
 	acceptCh    chan acceptResponse
+	doneCh      chan struct{}
 	onCloseFunc OnCloseFunc
 }
 
@@ -219,23 +220,26 @@ func (m *multiStreamListener) Acquire() (StreamListener, error) {
 		}
 		m.ln = &TCPListener{ln}
 		m.acceptCh = make(chan acceptResponse)
-		go func() {
+		m.doneCh = make(chan struct{})
+		go func(ln StreamListener, acceptCh chan<- acceptResponse, doneCh <-chan struct{}) {
+			defer close(acceptCh)
 			for {
-				m.mu.Lock()
-				ln := m.ln
-				m.mu.Unlock()
-
-				if ln == nil {
-					return
-				}
 				conn, err := ln.AcceptStream()
 				if errors.Is(err, net.ErrClosed) {
-					close(m.acceptCh)
 					return
 				}
-				m.acceptCh <- acceptResponse{conn, err}
+				select {
+				case acceptCh <- acceptResponse{conn, err}:
+				case <-doneCh:
+					// The last user closed the listener while this connection was
+					// waiting to be handed over. Nobody can receive it any more.
+					if err == nil {
+						conn.Close()
+					}
+					return
+				}
 			}
-		}()
+		}(m.ln, m.acceptCh, m.doneCh)
 	}
 
 	m.count++
@@ -250,6 +254,7 @@ func (m *multiStreamListener) Acquire() (StreamListener, error) {
 			if m.count == 0 {
 				m.ln.Close()
 				m.ln = nil
+				close(m.doneCh)
 				if m.onCloseFunc != nil {
 					onCloseFunc := m.onCloseFunc
 					m.onCloseFunc = nil
